@@ -1,7 +1,7 @@
 (* C15/Proofs — lemmas behind Properties/C15.v. *)
 From Coq Require Import List NArith ZArith Bool Lia Permutation.
 From Verif Require Import Base.Outcome Gen.Consts Wire.Item Generic.Types Generic.Enc Generic.Dec C01.Model C01.Proofs C11.Corr C15.Model.
-From Verif Require Wire.Cbor C10.CborSpec C10.CborConv Wire.CborEnc Wire.Msgpack Wire.MsgpackRT Wire.Simple Wire.Binc.
+From Verif Require Wire.Cbor C10.CborSpec C10.CborConv Wire.CborProofs Wire.CborEnc Wire.Msgpack Wire.MsgpackRT Wire.Simple Wire.SimpleProofs Wire.Binc Wire.BincProofs.
 Import ListNotations.
 
 (* ---- the generic encoder never asks for a tag / extension (extensions are C17) ---- *)
@@ -137,14 +137,14 @@ Qed.
 (* ---- numbers: the integer a leaf denotes survives schema-less decoding ---- *)
 Section Nums.
   Lemma nums_cbor : forall (O : Cbor.eopts) (D : Cbor.dopts) (i : item) (z : Z),
-    int_val i = Some z -> (match i with IUint _ => True | _ => True end) ->
+    int_val i = Some z ->
     int_val (CborEnc.norm O D i) = Some z
     /\ (match CborEnc.norm O D i with
         | IInt x => (x < 0)%Z \/ Cbor.do_signed D = true
         | IUint _ => Cbor.do_signed D = false
         | _ => False end).
   Proof.
-    intros O D i z Hi _. destruct i; try discriminate; cbn [int_val] in Hi; injection Hi as <-.
+    intros O D i z Hi. destruct i; try discriminate; cbn [int_val] in Hi; injection Hi as <-.
     - unfold CborEnc.norm. cbn [CborEnc.sdata_of]. unfold CborEnc.int_data.
       destruct (z0 <? 0)%Z eqn:E; cbn [C10.CborConv.go_of].
       + apply Z.ltb_lt in E. cbn [int_val]. split; [f_equal; lia|left; lia].
@@ -179,17 +179,6 @@ Section Nums.
         unfold Msgpack.signed. destruct Hf as [Hf|Hf]; [discriminate|].
         assert (Hlt : (n <? 2 ^ (64 - 1))%N = true) by (apply N.ltb_lt; exact Hf).
         rewrite Hlt. reflexivity.
-  Qed.
-
-  (* without the guard: msgpack + SignedInteger hands an unsigned value >= 2^63 back sign-flipped (F07-1n) *)
-  Lemma nums_msgpack_signed_refuted :
-    exists (O : Msgpack.eopts) (D : Msgpack.dopts) (i : item) (z : Z),
-      int_val i = Some z /\ wf i /\ int_val (MsgpackRT.norm O D i) <> Some z
-      /\ Msgpack.dec_naked D (Msgpack.dec_fuel (Msgpack.enc O i)) (Msgpack.enc O i) = Ok (IInt (-1), []).
-  Proof.
-    exists (Msgpack.mkeopts true false false false), (Msgpack.mkdopts true false true 0),
-           (IUint 18446744073709551615%N), 18446744073709551615%Z.
-    repeat apply conj; [reflexivity|cbn; lia|vm_compute; discriminate|vm_compute; reflexivity].
   Qed.
 
   Lemma nums_simple : forall (o : Simple.eopts) (D : Simple.dopts) (key : bool) (i : item) (z : Z),
@@ -261,3 +250,116 @@ Section Nums.
     - unfold CborEnc.norm. cbn. reflexivity.
   Qed.
 End Nums.
+
+(* ---- SignedInteger and an unsigned value >= 2^63: the schema-less decode of the encoding is the
+   overflow error in every format (F07-1n repaired in msgpack and binc; never a sign-flipped int64) ---- *)
+Section Overflow.
+  Import Wire.Cbor C10.CborSpec C10.CborConv Wire.CborProofs Wire.CborEnc.
+  Local Open Scope N_scope.
+Lemma cbor_signed_overflow : forall (O : eopts) (D : dopts) (n : N) (rest : list N),
+  do_signed D = true -> 2 ^ 63 <= n -> n < 2 ^ 64 ->
+  dec_naked D (fuel_for (enc O (IUint n) ++ rest)) (enc O (IUint n) ++ rest) = Err EOverflow.
+Proof.
+  intros O D n rest Hs Hlo Hhi.
+  change (2 ^ 63) with 9223372036854775808 in Hlo. change (2 ^ 64) with 18446744073709551616 in Hhi.
+  cbn [enc]. change baseUint with (0 * 32). rewrite enc_head_shead by lia.
+  assert (Hw : minw n = W8).
+  { unfold minw. repeat (match goal with |- context [?a <=? ?b] => destruct (N.leb_spec a b); [lia|] end). reflexivity. }
+  rewrite Hw. unfold shead. cbn [ai_of wbytes]. rewrite <- app_comm_cons.
+  unfold dec_naked, fuel_for. cbn [length]. rewrite Nat.mul_succ_r.
+  replace (2 * length (sbe 8 n ++ rest) + 2 + 2)%nat with (S (S (2 * length (sbe 8 n ++ rest) + 2))) by lia.
+  cbn [dec]. unfold dec_body. change (0 * 32 + 27) with 27. change (kind_of 27) with KUint. cbv iota.
+  change (27 mod 32) with (ai_of W8 n). unfold liftI. cbn [fst].
+  change (sbe 8 n) with (sbe (wbytes W8) n). rewrite (read_uint_head W8 n rest) by (simpl; lia). cbn [bind]. rewrite Hs.
+  unfold int64v. cbn [andb negb orb].
+  replace (9223372036854775808 <=? n) with true by (symmetry; apply N.leb_le; lia). reflexivity.
+Qed.
+
+End Overflow.
+
+Lemma overflow_cbor : forall (O : Cbor.eopts) (D : Cbor.dopts) (n : N),
+  Cbor.do_signed D = true -> (2 ^ 63 <= n)%N -> (n < 2 ^ 64)%N ->
+  naked_run (FCbor O D) (IUint n) = Err EOverflow.
+Proof.
+  intros O D n Hs Hlo Hhi. unfold naked_run.
+  pose proof (cbor_signed_overflow O D n [] Hs Hlo Hhi) as H. rewrite app_nil_r in H. rewrite H. reflexivity.
+Qed.
+
+Lemma overflow_msgpack : forall (O : Msgpack.eopts) (D : Msgpack.dopts) (n : N),
+  Msgpack.d_signedinteger D = true -> (2 ^ 63 <= n)%N -> (n < 2 ^ 64)%N ->
+  naked_run (FMsgpack O D) (IUint n) = Err EOverflow.
+Proof.
+  intros O D n Hs Hlo Hhi. unfold naked_run.
+  pose proof (MsgpackRT.dec_enc_signed_overflow O D n [] Hs (conj Hlo Hhi)) as H. rewrite app_nil_r in H. rewrite H. reflexivity.
+Qed.
+
+Lemma overflow_simple : forall (o : Simple.eopts) (D : Simple.dopts) (n : N),
+  Simple.signedInteger D = true -> (2 ^ 63 <= n)%N -> (n < 2 ^ 64)%N ->
+  naked_run (FSimple o D) (IUint n) = Err EOverflow.
+Proof.
+  intros o D n Hs Hlo Hhi. unfold naked_run, Simple.dec_naked.
+  pose proof (SimpleProofs.W_simple_dec_enc_signed_overflow_lemma o D n []
+                (Simple.dec_fuel (Simple.enc o false (IUint n))) 0%Z Hs Hlo Hhi) as H.
+  rewrite app_nil_r in H. rewrite H; [reflexivity|unfold Simple.dec_fuel; lia].
+Qed.
+
+Lemma overflow_binc : forall (e : Binc.eopts) (d : Binc.dopts) (n : N),
+  Binc.signedInt d = true -> (2 ^ 63 <= n)%N -> (n < 2 ^ 64)%N -> (1 <= Binc.maxdepth d)%N ->
+  naked_run (FBinc e d) (IUint n) = Err EOverflow.
+Proof.
+  intros e d n Hs Hlo Hhi Hm. unfold naked_run.
+  pose proof (BincProofs.dec_naked_signed_overflow e d n Binc.estate0 Binc.dstate0 [] Hs Hlo Hhi Hm) as H.
+  rewrite app_nil_r in H. rewrite H. reflexivity.
+Qed.
+
+(* an integer leaf either fits (then the tree holds the same integer) or is the overflow class *)
+Lemma fits_or_big : forall (signed : bool) (i : item) (z : Z),
+  int_val i = Some z -> wf i ->
+  fits signed i \/ (signed = true /\ exists n, i = IUint n /\ (2 ^ 63 <= n)%N /\ (n < 2 ^ 64)%N).
+Proof.
+  intros signed i z Hi Hwf. destruct i; try discriminate; cbn [wf] in Hwf.
+  - left. right. lia.
+  - destruct signed; [|left; left; reflexivity].
+    destruct (N.ltb_spec n (2 ^ 63)); [left; right; assumption|].
+    right. split; [reflexivity|]. exists n. repeat split; assumption.
+Qed.
+
+Lemma nums_total_cbor : forall (O : Cbor.eopts) (D : Cbor.dopts) (i : item) (z : Z),
+  int_val i = Some z -> wf i ->
+  (fits (Cbor.do_signed D) i /\ int_val (CborEnc.norm O D i) = Some z)
+  \/ (Cbor.do_signed D = true /\ naked_run (FCbor O D) i = Err EOverflow).
+Proof.
+  intros O D i z Hi Hwf. destruct (fits_or_big (Cbor.do_signed D) i z Hi Hwf) as [Hf|[Hs [n [-> [Hlo Hhi]]]]].
+  - left. split; [exact Hf|]. exact (proj1 (nums_cbor O D i z Hi)).
+  - right. split; [exact Hs|]. apply overflow_cbor; assumption.
+Qed.
+
+Lemma nums_total_msgpack : forall (O : Msgpack.eopts) (D : Msgpack.dopts) (i : item) (z : Z),
+  int_val i = Some z -> wf i ->
+  (fits (Msgpack.d_signedinteger D) i /\ int_val (MsgpackRT.norm O D i) = Some z)
+  \/ (Msgpack.d_signedinteger D = true /\ naked_run (FMsgpack O D) i = Err EOverflow).
+Proof.
+  intros O D i z Hi Hwf. destruct (fits_or_big (Msgpack.d_signedinteger D) i z Hi Hwf) as [Hf|[Hs [n [-> [Hlo Hhi]]]]].
+  - left. split; [exact Hf|]. apply nums_msgpack; assumption.
+  - right. split; [exact Hs|]. apply overflow_msgpack; assumption.
+Qed.
+
+Lemma nums_total_simple : forall (o : Simple.eopts) (D : Simple.dopts) (i : item) (z : Z),
+  int_val i = Some z -> wf i -> Simple.zeroAsNil o = false ->
+  (fits (Simple.signedInteger D) i /\ int_val (Simple.norm o D false i) = Some z)
+  \/ (Simple.signedInteger D = true /\ naked_run (FSimple o D) i = Err EOverflow).
+Proof.
+  intros o D i z Hi Hwf Hz. destruct (fits_or_big (Simple.signedInteger D) i z Hi Hwf) as [Hf|[Hs [n [-> [Hlo Hhi]]]]].
+  - left. split; [exact Hf|]. apply nums_simple; assumption.
+  - right. split; [exact Hs|]. apply overflow_simple; assumption.
+Qed.
+
+Lemma nums_total_binc : forall (e : Binc.eopts) (d : Binc.dopts) (i : item) (z : Z),
+  int_val i = Some z -> wf i -> (1 <= Binc.maxdepth d)%N ->
+  (fits (Binc.signedInt d) i /\ int_val (Binc.norm e d i) = Some z)
+  \/ (Binc.signedInt d = true /\ naked_run (FBinc e d) i = Err EOverflow).
+Proof.
+  intros e d i z Hi Hwf Hm. destruct (fits_or_big (Binc.signedInt d) i z Hi Hwf) as [Hf|[Hs [n [-> [Hlo Hhi]]]]].
+  - left. split; [exact Hf|]. apply nums_binc; assumption.
+  - right. split; [exact Hs|]. apply overflow_binc; assumption.
+Qed.
